@@ -3,6 +3,8 @@ package chain
 import (
 	"context"
 	"fmt"
+	"runtime"
+	"time"
 
 	"github.com/spikeekips/mitum/base"
 	"github.com/spikeekips/mitum/isaac"
@@ -20,6 +22,8 @@ type DB struct {
 	Perm   *isaacdatabase.LeveldbPermanent
 	Center *isaacdatabase.Center
 	cache  int
+	// number of goroutines right after open: Reopen / Close wait until the count is back there
+	baseline int
 }
 
 func NewDB(w *World, stcachesize int) *DB {
@@ -46,11 +50,25 @@ func (d *DB) open() error {
 		return err
 	}
 	d.St, d.Perm, d.Center = st, perm, center
+	d.baseline = runtime.NumGoroutine()
 	return nil
+}
+
+// quiesce: Center.dig cancels its job worker as soon as one temp answers (ExistsInStateOperation,
+// ExistsKnownOperation); jobs that are already running keep reading the storage after the read has
+// returned (util.BaseJobWorker.Wait does not wait for them on cancel). Closing the leveldb under them
+// panics inside goleveldb ("cache.Value is nil, not *table.Reader") -- observed in the thorough tier.
+// "Reopen at a quiescent point" therefore waits until those stray jobs are gone.
+func (d *DB) quiesce() {
+	deadline := time.Now().Add(2 * time.Second)
+	for runtime.NumGoroutine() > d.baseline && time.Now().Before(deadline) {
+		time.Sleep(100 * time.Microsecond)
+	}
 }
 
 // Reopen closes the storage (everything in memory is dropped) and rebuilds permanent + center from it.
 func (d *DB) Reopen() error {
+	d.quiesce()
 	if err := d.Center.Close(); err != nil {
 		return err
 	}
@@ -64,6 +82,7 @@ func (d *DB) Reopen() error {
 }
 
 func (d *DB) Close() {
+	d.quiesce()
 	_ = d.St.Close()
 }
 
